@@ -92,6 +92,16 @@ fn main() {
                 let parts: Vec<String> = [&d.years, &d.weeks, &d.days, &d.hours, &d.minutes, &d.seconds].iter().map(|p| part(p)).collect();
                 text.push_str(&format!("\nPARTS {}", parts.join("; ")));
             }
+            {
+                let np: Option<&rink_core::output::NumberParts> = match &res {
+                    Ok(rink_core::output::QueryReply::Number(p)) => Some(p),
+                    Ok(rink_core::output::QueryReply::Conversion(c)) => Some(&c.value),
+                    _ => None,
+                };
+                if let Some(p) = np {
+                    text.push_str(&format!("\nNUMERAL exact={:?} approx={:?}", p.exact_value, p.approx_value));
+                }
+            }
             if let Ok(rink_core::output::QueryReply::UnitsFor(u)) = &res {
                 let groups: Vec<String> = u.units.iter().map(|g| format!("{}={}", g.category.clone().unwrap_or_else(|| "-".to_string()), g.units.join(","))).collect();
                 let dims: Vec<String> = match &u.of.raw_value { Some(raw) => raw.unit.iter().map(|(k, v)| format!("{}:{}", k, v)).collect(), None => vec![] };
